@@ -28,3 +28,4 @@ pub mod c20;
 pub mod c21;
 pub mod c23;
 pub mod c27;
+pub mod c14;
